@@ -15,8 +15,8 @@ def run(ctx):
         "overhang at a sink makes mixed-case inputs chain differently."
     )
     r.not_decided = ["case handling inside Bio.Restriction.catalyse"]
-    transcription_rule(ctx, "C18.case-flag")
+    ctx.guard(transcription_rule, ctx, "C18.case-flag")
     from ..kernels import run_kernels
     run_kernels(ctx, ["K0", "K15", "K14"], "C18")
     records = collect_walk_effects(ctx)
-    case_taint_rule(ctx, "C18.case-taint", records)
+    ctx.guard(case_taint_rule, ctx, "C18.case-taint", records)
